@@ -47,12 +47,29 @@ Theorem C20_host_call_protocol :
        (mkM (match v with VVoid => s | _ => v :: s end) (menv m) (mkCall name args :: trace m) (polls m)).
 Proof. exact CallProofs.host_call_protocol. Qed.
 
-(* NoOptimize disables optimisation and nothing else: without the OPTIMIZE
-   variable the machine runs exactly what the compiler produced *)
+(* NoOptimize disables optimisation: whatever the variables hold (an OPTIMIZE switch
+   left by an earlier Prepare included), the machine runs exactly what the compiler
+   produced.  No scope is open between operations (C07_clean_after_any_history). *)
 Theorem C20_nooptimize_only : forall o e u p e',
+  prepare o e false = (PrepOk u p, e') -> scopes (eenv e) = [] -> p = u.
+Proof. exact ApiProofs.nooptimize_only. Qed.
+
+(* ... in particular after an optimizing Prepare *)
+Theorem C20_nooptimize_after_optimize : forall o e u1 p1 e1 u2 p2 e2,
+  scopes (eenv e) = [] ->
+  prepare o e true = (PrepOk u1 p1, e1) -> prepare o e1 false = (PrepOk u2 p2, e2) ->
+  p2 = u2.
+Proof. exact ApiProofs.nooptimize_after_optimize. Qed.
+
+(* ... and nothing else: the only variable it touches is the OPTIMIZE switch, which it removes *)
+Theorem C20_nooptimize_variables : forall o e u p e',
+  prepare o e false = (PrepOk u p, e') -> eenv e' = env_unset (eenv e) optimize_var.
+Proof. exact ApiProofs.nooptimize_variables. Qed.
+
+Theorem C20_nooptimize_keeps_variables : forall o e u p e',
   env_get (eenv e) optimize_var = None ->
   prepare o e false = (PrepOk u p, e') -> p = u /\ eenv e' = eenv e.
-Proof. exact ApiProofs.nooptimize_only. Qed.
+Proof. exact ApiProofs.nooptimize_keeps_variables. Qed.
 
 (* ... and with optimisation the machine runs the optimizer's output on the same compiled program *)
 Theorem C20_optimize_only : forall o e u p e',
